@@ -32,6 +32,9 @@ def main():
         if len(data) < 2:
             return
         counter['n'] += 1
+        if counter['n'] % 100 == 0:         # atheris leaves through os._exit: keep the count on disk
+            with open(os.path.join(outdir, 'executions.%d' % os.getpid()), 'w') as fh:
+                fh.write(str(counter['n']))
         case = {'register_first': bool(data[0] & 1), 'segments': [{'kind': 'random', 'bytes': bytes(data[1:]).hex()}]}
         st = common.Stats()
         common.run_pred(c08.pred, case, st, 'stream')
